@@ -2,6 +2,7 @@ package smt
 
 import (
 	"bufio"
+	"os"
 	"fmt"
 	"io"
 	"os/exec"
@@ -80,6 +81,10 @@ func (s *Solver) start() error {
 	s.w = bufio.NewWriterSize(in, 1<<16)
 	s.defined = []map[int]bool{{}}
 	s.dead = false
+	if d := os.Getenv("GOSYMX_SOLVERLOG"); d != "" && s.Log == nil {
+		f, _ := os.Create(fmt.Sprintf("%s/solver_%d.smt2", d, cmd.Process.Pid))
+		s.Log = f
+	}
 	if strings.HasPrefix(s.Name, "z3") {
 		s.send(fmt.Sprintf("(set-option :timeout %d)", s.timeout))
 	}
@@ -287,6 +292,36 @@ func (s *Solver) Check() Result {
 		s.NUnknown++
 	}
 	return res
+}
+
+// Solve decides the conjunction of ts from a clean solver state ((reset), so that
+// z3 uses its non-incremental tactic pipeline, which is an order of magnitude
+// faster on these 64-bit queries than push/pop mode).  The model stays
+// available to Values until the next Solve.
+func (s *Solver) Solve(ts []*Term) Result {
+	if s.dead {
+		s.NUnknown++
+		return Unknown
+	}
+	if f, ok := s.Log.(*os.File); ok {
+		if os.Getenv("GOSYMX_SOLVERLOG_FULL") == "" {
+			f.Truncate(0)
+			f.Seek(0, 0)
+		}
+	}
+	s.send("(reset)")
+	s.defined = []map[int]bool{{}}
+	if strings.HasPrefix(s.Name, "z3") {
+		s.send(fmt.Sprintf("(set-option :timeout %d)", s.timeout))
+	}
+	if strings.HasPrefix(s.Name, "cvc5") {
+		s.send("(set-logic ALL)")
+	}
+	s.send("(set-option :produce-models true)")
+	for _, t := range ts {
+		s.Assert(t)
+	}
+	return s.Check()
 }
 
 // CheckWith pushes, asserts extra, checks, and pops.
